@@ -373,7 +373,10 @@ func (m *Variant) Encode() ([]byte, error) {
 
 // encode recursively writes the values to the buffer.
 func (m *Variant) encode(buf *Buffer, val reflect.Value) {
-	if val.Kind() != reflect.Slice || m.Type() == TypeIDByteString {
+	// a []byte of a ByteString variant is a single value. An array
+	// of ByteString is a [][]byte and is written element by element.
+	isByteString := m.Type() == TypeIDByteString && val.Kind() == reflect.Slice && val.Type().Elem().Kind() == reflect.Uint8
+	if val.Kind() != reflect.Slice || isByteString {
 		m.encodeValue(buf, val.Interface())
 		return
 	}
@@ -480,7 +483,8 @@ func sliceDim(val reflect.Value) (typ reflect.Type, dim []int32, count int32, er
 	}
 
 	// check that inner slices all have the same length
-	if val.Index(0).Kind() == reflect.Slice {
+	// ([]byte elements are ByteString values and not a dimension)
+	if val.Index(0).Kind() == reflect.Slice && val.Index(0).Type() != reflect.TypeOf([]byte{}) {
 		for i := 0; i < val.Len(); i++ {
 			if val.Index(i).Len() != val.Index(0).Len() {
 				return nil, nil, 0, errUnbalancedSlice
